@@ -192,7 +192,7 @@ def theorems_of(vfile):
 # ---------------------------------------------------------------- implementation runner
 
 
-def run_impl(driver, payload, hashseed=0, timeout=900):
+def run_impl(driver, payload, hashseed=0, timeout=1200):
     """Run tools/impl/<driver>.py in a subprocess against /repo, JSON in / JSON out."""
     p = subprocess.run(
         [PY, os.path.join(VERIF, "tools", "impl", driver + ".py")],
